@@ -32,6 +32,10 @@
  ],
  'kf': ['C12_atof64_negexp', 'C12_atof64_exp_nodigits', 'C12_atof64_nodigits', 'C12_atof64_exp_overflow'],
  'witness': {'unwind': 9},
+ 'fallback': 'ghost-free',
+ 'native_probes': [{'n': 6, 'content': '{48, 101, 52, 48, 48, 0}', 'want_end': 1, 'k': 0}, {'n': 6, 'content': '{49, 101, 52, 48, 48, 0}', 'want_end': 1, 'k': 0},
+                   {'n': 6, 'content': '{48, 101, 45, 57, 57, 0}', 'want_end': 0, 'k': 1}, {'n': 6, 'content': '{46, 101, 52, 48, 48, 0}', 'want_end': 1, 'k': 0}],
+ 'bound': 'native probes: the four texts "0e400", "1e400", "0e-99", ".e400" (decimal exponents beyond the range of double) run on the real code under ASan/UBSan; the proof itself bounds the exponent value only through its saturation clause',
  'assumptions': ['text: every character the grammar automaton has to inspect lies inside the text object (SPEC_NEED in spec/c12_atof_ref.h; satisfied by every NUL-terminated string and by the object that ends exactly at the first character that decides the end of the literal)',
                  'text object <= 2^30 bytes: the code counts fraction digits in an int (a literal with 2^31 fraction digits would overflow it)',
                  'nptr != NULL (the function returns 0.0 for NULL and stores nothing; ISO leaves strtod(NULL) undefined)'],
